@@ -10,7 +10,6 @@
  *   -DCOP_VIEW_OTHER                  tags outside the transferable set (what the code does with them)
  *   -DCOP_VIEW_SAFE -DCOP_SAFE_CLASS=c   C16: arbitrary bytes, c = 0 scalars+other, 1 string, 2 array
  *        [-DCOP_ALLOC_BOUND]          allocation assumption only for requests <= COP_MAX_PAYLOAD elements
- *        [-DCOP_DEPTH_GHOST]          ghost recursion-depth counter bounded by COP_MAX_DEPTH
  *   -DCOP_VIEW_IO                     read_all / write_all / cop_recv_* / cop_send under the adversarial OS stubs
  *   -DCOP_VIEW_CALLER                 caller-view (r_ok/w_ok) contracts used to REPLACE calls in vm_ffi.c proofs
  *
@@ -26,6 +25,11 @@
 #include "nanovm/heap.h"
 #include "nanovm/cop_protocol.h"
 #include "spec_cop.h"
+
+/* C16.deser.depth: bound on the decoder's recursion depth that the contract demands (the code's own limit may be lower) */
+#ifndef COP_DEPTH_LIMIT
+#define COP_DEPTH_LIMIT 1024u
+#endif
 
 #ifndef MINSZ
 #define MINSZ(a, b) ((a) < (b) ? (a) : (b))
@@ -44,7 +48,7 @@ struct verif_cop_ghost {
     int      killed;
     int      closed_in, closed_out;
     int      inproc_called;  /* fell back to in-process vm_ffi_call */
-    uint32_t depth;          /* active recursive frames of cop_deserialize_value (C16.deser.depth) */
+    uint32_t depth;          /* unused since the decoder carries its depth as a parameter (kept for layout) */
     /* caller view (C16.call, C15.reqbuf) */
     unsigned req_sent;       /* cop_send(COP_MSG_FFI_REQ) calls */
     int      req_fail;       /* the FFI_REQ send failed */
@@ -142,6 +146,18 @@ __CPROVER_ensures((__CPROVER_return_value == 0) == (buf_size < COP_IMG))
 __CPROVER_ensures(__CPROVER_return_value != 0 ==>
                   (__CPROVER_return_value == COP_IMG && out->tag == COP_KK &&
                    spec_cop_bits(out, COP_KK) == spec_cop_wire_bits(buf + (COP_IMG > 1 ? 1 : 0), COP_KK)));
+/* the decoder body is the static helper (depth = array nesting level of this value); same clauses, enforced there */
+static uint32_t deserialize_value_at(const uint8_t *buf, uint32_t buf_size, NanoValue *out, VmHeap *heap, uint32_t depth)
+/* C16.deser.depth: recursion depth (= C stack use) is bounded whatever the peer sends */
+__CPROVER_requires(depth <= COP_DEPTH_LIMIT)
+__CPROVER_requires(VERIF_FRESH(buf, MINSZ(buf_size, COP_IMG)))
+__CPROVER_requires(buf_size == 0 || buf[0] == COP_KK)
+__CPROVER_requires(VERIF_FRESH(out, sizeof(*out)))
+__CPROVER_assigns(__CPROVER_object_whole(out))
+__CPROVER_ensures((__CPROVER_return_value == 0) == (buf_size < COP_IMG))
+__CPROVER_ensures(__CPROVER_return_value != 0 ==>
+                  (__CPROVER_return_value == COP_IMG && out->tag == COP_KK &&
+                   spec_cop_bits(out, COP_KK) == spec_cop_wire_bits(buf + (COP_IMG > 1 ? 1 : 0), COP_KK)));
 #endif
 
 #if defined(COP_VIEW_STRING)
@@ -190,6 +206,24 @@ __CPROVER_ensures(__CPROVER_return_value != 0 ==>
                    out->as.string->length == __verif_cop_slen && out->as.string->data[__verif_cop_slen] == '\0'))
 __CPROVER_ensures((__CPROVER_return_value != 0 && COP_K < __verif_cop_slen) ==>
                   (uint8_t)out->as.string->data[COP_K] == buf[5 + (size_t)COP_K]);
+/* the decoder body is the static helper (depth = array nesting level of this value); same clauses, enforced there */
+static uint32_t deserialize_value_at(const uint8_t *buf, uint32_t buf_size, NanoValue *out, VmHeap *heap, uint32_t depth)
+/* C16.deser.depth: recursion depth (= C stack use) is bounded whatever the peer sends */
+__CPROVER_requires(depth <= COP_DEPTH_LIMIT)
+__CPROVER_requires(__verif_cop_slen <= COP_STR_MAXLEN)
+__CPROVER_requires(VERIF_FRESH(buf, MINSZ((uint64_t)buf_size, COP_SIMG)))
+__CPROVER_requires(buf_size == 0 || buf[0] == TAG_STRING)
+__CPROVER_requires(buf_size < 5 || COP_LE32(buf + 1) == __verif_cop_slen)
+__CPROVER_requires(VERIF_FRESH(out, sizeof(*out)))
+__CPROVER_requires(VERIF_FRESH(heap, sizeof(*heap)))
+__CPROVER_assigns(__CPROVER_object_whole(out), __CPROVER_object_whole(heap))
+__CPROVER_ensures((__CPROVER_return_value == 0) == ((uint64_t)buf_size < COP_SIMG))
+__CPROVER_ensures(__CPROVER_return_value != 0 ==>
+                  (__CPROVER_return_value == COP_SIMG && out->tag == TAG_STRING &&
+                   __CPROVER_is_fresh(out->as.string, sizeof(VmString) + (size_t)__verif_cop_slen + 1) &&
+                   out->as.string->length == __verif_cop_slen && out->as.string->data[__verif_cop_slen] == '\0'))
+__CPROVER_ensures((__CPROVER_return_value != 0 && COP_K < __verif_cop_slen) ==>
+                  (uint8_t)out->as.string->data[COP_K] == buf[5 + (size_t)COP_K]);
 #endif
 
 #if defined(COP_VIEW_SAFE)
@@ -218,17 +252,29 @@ __CPROVER_requires(buf_size <= COP_MAX_PAYLOAD)
 __CPROVER_requires(__CPROVER_POINTER_OFFSET(buf) != 0 || buf_size == 0 || COP_TAG_CLASS(buf[0]) == COP_SAFE_CLASS)
 __CPROVER_requires(VERIF_FRESH(out, sizeof(*out)))
 __CPROVER_requires(VERIF_FRESH(heap, sizeof(*heap)))
-#ifdef COP_DEPTH_GHOST
-/* recursion depth (= stack use) is bounded whatever the peer sends: at most COP_MAX_DEPTH nested frames */
-#ifndef COP_MAX_DEPTH
-#define COP_MAX_DEPTH 1024u
-#endif
-__CPROVER_requires(__verif_cop.depth <= COP_MAX_DEPTH)
-__CPROVER_assigns(__CPROVER_object_whole(out), __CPROVER_object_whole(heap), __verif_cop)
-__CPROVER_ensures(__verif_cop.depth == __CPROVER_old(__verif_cop.depth))
-#else
 __CPROVER_assigns(__CPROVER_object_whole(out), __CPROVER_object_whole(heap))
+/* 0 (rejected) or a consumed count within the buffer */
+__CPROVER_ensures(__CPROVER_return_value <= buf_size)
+__CPROVER_ensures(__CPROVER_return_value != 0 ==> (__CPROVER_return_value >= 1 && COP_IS_TRANSFERABLE(out->tag)))
+__CPROVER_ensures(__CPROVER_return_value != 0 ==> (COP_IS_SCALAR(buf[0]) || buf[0] == TAG_STRING || buf[0] == TAG_ARRAY || out->tag == TAG_VOID))
+/* well-formed result: heap values point to live objects of the right kind */
+__CPROVER_ensures((__CPROVER_return_value != 0 && out->tag == TAG_STRING) ==>
+                  (__CPROVER_is_fresh(out->as.string, sizeof(VmString) + 1) && out->as.string->header.obj_type == TAG_STRING))
+__CPROVER_ensures((__CPROVER_return_value != 0 && out->tag == TAG_ARRAY) ==>
+                  (__CPROVER_is_fresh(out->as.array, sizeof(VmArray)) && COP_OUT_ARRAY(out)->header.obj_type == TAG_ARRAY));
+/* the decoder body is the static helper (depth = array nesting level of this value); same clauses, enforced there */
+static uint32_t deserialize_value_at(const uint8_t *buf, uint32_t buf_size, NanoValue *out, VmHeap *heap, uint32_t depth)
+/* C16.deser.depth: recursion depth (= C stack use) is bounded whatever the peer sends */
+__CPROVER_requires(depth <= COP_DEPTH_LIMIT)
+__CPROVER_requires(VERIF_FRESH(buf, buf_size))
+#ifdef COP_ALLOC_BOUND
+/* every caller hands a received payload: cop_recv_header has checked payload_len <= COP_MAX_PAYLOAD (C16.recv.header) */
+__CPROVER_requires(buf_size <= COP_MAX_PAYLOAD)
 #endif
+__CPROVER_requires(__CPROVER_POINTER_OFFSET(buf) != 0 || buf_size == 0 || COP_TAG_CLASS(buf[0]) == COP_SAFE_CLASS)
+__CPROVER_requires(VERIF_FRESH(out, sizeof(*out)))
+__CPROVER_requires(VERIF_FRESH(heap, sizeof(*heap)))
+__CPROVER_assigns(__CPROVER_object_whole(out), __CPROVER_object_whole(heap))
 /* 0 (rejected) or a consumed count within the buffer */
 __CPROVER_ensures(__CPROVER_return_value <= buf_size)
 __CPROVER_ensures(__CPROVER_return_value != 0 ==> (__CPROVER_return_value >= 1 && COP_IS_TRANSFERABLE(out->tag)))
@@ -361,6 +407,16 @@ __CPROVER_ensures((__CPROVER_return_value == 0) == (buf_size < 1))
 __CPROVER_ensures(__CPROVER_return_value != 0 ==> (__CPROVER_return_value == 1 && buf[0] == val->tag));
 
 uint32_t cop_deserialize_value(const uint8_t *buf, uint32_t buf_size, NanoValue *out, VmHeap *heap)
+__CPROVER_requires(VERIF_FRESH(buf, MINSZ(buf_size, 1u)))
+__CPROVER_requires(buf_size == 0 || !COP_IS_TRANSFERABLE(buf[0]))
+__CPROVER_requires(VERIF_FRESH(out, sizeof(*out)))
+__CPROVER_assigns(__CPROVER_object_whole(out))
+__CPROVER_ensures((__CPROVER_return_value == 0) == (buf_size < 1))
+__CPROVER_ensures(__CPROVER_return_value != 0 ==> (__CPROVER_return_value == 1 && out->tag == TAG_VOID));
+/* the decoder body is the static helper (depth = array nesting level of this value); same clauses, enforced there */
+static uint32_t deserialize_value_at(const uint8_t *buf, uint32_t buf_size, NanoValue *out, VmHeap *heap, uint32_t depth)
+/* C16.deser.depth: recursion depth (= C stack use) is bounded whatever the peer sends */
+__CPROVER_requires(depth <= COP_DEPTH_LIMIT)
 __CPROVER_requires(VERIF_FRESH(buf, MINSZ(buf_size, 1u)))
 __CPROVER_requires(buf_size == 0 || !COP_IS_TRANSFERABLE(buf[0]))
 __CPROVER_requires(VERIF_FRESH(out, sizeof(*out)))
